@@ -10,9 +10,9 @@
    behaviour, probed into PKGen.CryptoTables and compared on every run).  Since the
    `fix:` commits f8d262f..fd6e5cc the engine converts the library's refusals into
    KMIP errors (mode construction -> InvalidField, cipher operations incl. InvalidTag
-   and padding removal -> CryptographicFailure, KDF refusals -> InvalidField); the
-   only non-KMIP exceptions left on the symmetric path are two RC4 corners
-   (`lib_sym_stage = LCrash`).  Definitions only; enum members are their KMIP numeric
+   and padding removal -> CryptographicFailure, KDF refusals -> InvalidField) and
+   since 4ef300f RC4 named with CBC/ECB/GCM is InvalidField: no plan that
+   `sym_plan_of` accepts reaches `lib_sym_stage = LCrash` any more (proved).  Definitions only; enum members are their KMIP numeric
    values (option Z, None = parameter absent). *)
 From PK Require Import Base.Bytes Crypto.Padding.
 From PKGen Require Import CryptoTables.
@@ -79,6 +79,8 @@ Definition sym_plan_of (dec : bool) (a : Z) (key : bytes) (mode pad : option Z)
   | None => Err InvalidField
   | Some (block_bits, ksizes) =>
     if negb (memZ (8 * zlen key) ksizes) then Err CryptographicFailure else
+    (* fix 4ef300f: RC4 named with a block cipher mode that cannot apply *)
+    if (a =? CA_RC4) && (oeqZ mode BCM_CBC || oeqZ mode BCM_ECB || oeqZ mode BCM_GCM) then Err InvalidField else
     let gcm := oeqZ mode BCM_GCM in
     if negb gcm && is_some aad then Err InvalidField else
     if gcm && negb (if dec then is_some tag else is_some taglen) then Err InvalidField else
